@@ -17,7 +17,7 @@ from ..order import Interp
 from ..algebra_lin import linear_form
 
 COL = "typhon/collocations/collocator.py"
-EXPECT = {"C04.empty": 4, "C04.temporal": 5, "C04.window": 5, "C04.nan": 6, "C04.swap": 4, "C04.offsets": 7,
+EXPECT = {"C04.empty": 4, "C04.temporal": 5, "C04.window": 4, "C04.nan": 6, "C04.swap": 4, "C04.offsets": 7,
           "C04.cache": 3, "C04.interval": 1}
 
 
@@ -167,97 +167,100 @@ def rule_window(ctx):
     f = ctx.func(COL, "Collocator._get_common_time_period")
     prim, sec, mi, start, end = f.params[:5]
     flow = Flow(f)
-    cs = ce = None
-    for st in flow.stmts:
-        if isinstance(st, ast.Assign) and isinstance(st.targets[0], ast.Name) and isinstance(st.value, ast.Call):
-            d = dotted(st.value.func)
-            if d == "max":
-                cs = st
-            elif d == "min":
-                ce = st
-    if cs is None or ce is None:
-        raise AnalysisError("_get_common_time_period: max(...)/min(...) definitions of the window not found")
-
-    def atoms(call, kind):
-        """map each argument of max/min to a linear form over S/E, pmin/pmax, smin/smax, mi"""
-        forms = []
-        for a in call.args:
-            env = {}
-            for n in ast.walk(a):
-                if isinstance(n, ast.Call) and isinstance(n.func, ast.Attribute) and n.func.attr in ("min", "max") and not n.args:
-                    who = norm(n.func.value).split(".")[0]
-                    sym = ("p" if who == prim else "s" if who == sec else "?") + n.func.attr
-                    # the maximal wrapper chain around it (item / Timestamp / tz_localize) is the identity on the time axis
-                    cur = n
-                    while True:
-                        p_ = parent(cur)
-                        if isinstance(p_, ast.Attribute) and isinstance(parent(p_), ast.Call) and parent(p_).func is p_ \
-                                and p_.attr in ("item", "tz_localize", "to_pydatetime", "astype"):
-                            cur = parent(p_)
-                        elif isinstance(p_, ast.Call) and cur in p_.args and (dotted(p_.func) or "").split(".")[-1] in ("Timestamp", "datetime64", "to_datetime"):
-                            cur = p_
-                        else:
-                            break
-                    env[norm(cur)] = sym
-            env[start] = "S"
-            env[end] = "E"
-            env[mi] = "M"
-            forms.append(linear_form(a, env))
-        return forms
-    fs = atoms(cs.value, "max")
-    fe = atoms(ce.value, "min")
-    want_s = [{"S": 1}, {"pmin": 1, "M": -1}, {"smin": 1, "M": -1}]
-    want_e = [{"E": 1}, {"pmax": 1, "M": 1}, {"smax": 1, "M": 1}]
-
-    def same(a, b):
-        return sorted(map(lambda d: sorted(d.items()), a)) == sorted(map(lambda d: sorted(d.items()), b))
-    ctx.ob("Collocator._get_common_time_period.start", same(fs, want_s), "common_start = max(%s)" % fs,
-           "max(start, primary min - max_interval, secondary min - max_interval): the interval is SUBTRACTED in the lower cut",
-           node=cs, func=f)
-    ctx.ob("Collocator._get_common_time_period.end", same(fe, want_e), "common_end = min(%s)" % fe,
-           "min(end, primary max + max_interval, secondary max + max_interval): the interval is ADDED in the upper cut", node=ce, func=f)
-    # the model: with the extracted forms, (both in [S,E], |t1-t2| < M, ranges) => both selected  - box 0..3
-    def val(form, a):
-        return sum(c * a[k] for k, c in form.items())
-    bad = None
-    n = 0
-    rng = range(5) if ctx.tier == "thorough" else range(4)
-    for S, E, M, pmin, t1, pmax, smin, t2, smax in itertools.product(rng, rng, range(3), rng, rng, rng, rng, rng, rng):
-        if not (S <= E and pmin <= t1 <= pmax and smin <= t2 <= smax):
-            continue
-        if not (S <= t1 <= E and S <= t2 <= E and abs(t1 - t2) < M):
-            continue
-        n += 1
-        a = {"S": S, "E": E, "M": M, "pmin": pmin, "pmax": pmax, "smin": smin, "smax": smax}
-        c0 = max(val(x, a) for x in fs)
-        c1 = min(val(x, a) for x in fe)
-        if not (c0 <= t1 <= c1 and c0 <= t2 <= c1):
-            bad = dict(a, t1=t1, t2=t2, common_start=c0, common_end=c1)
-            break
-    ctx.models.append({"rule": "C04.window", "cases": n, "domain": "box 0..3 (9 symbols)", "exhaustive": False})
-    ctx.ob("Collocator._get_common_time_period.sound", bad is None, "window computed from the extracted forms, %d admissible cases" % n,
-           "every pair (t1, t2) inside [start, end] with |t1 - t2| < max_interval lies inside [common_start, common_end]", node=cs, func=f, witness=bad)
-    # selections: inclusive at both ends, each dataset by its own time
+    # the selections: each dataset by its own time, inclusive at both ends; their bounds are the window
+    def unwrap(e):
+        while isinstance(e, ast.Call) and (dotted(e.func) or "").split(".")[-1] in ("datetime64", "Timestamp", "to_datetime", "to_datetime64") and len(e.args) == 1:
+            e = e.args[0]
+        return e
     sels = []
-    for st in flow.stmts:
-        if isinstance(st, ast.Assign) and calls_in(st.value, "where"):
-            w = calls_in(st.value, "where")[0]
+    for w in calls_in(f.node, "where"):
+        if isinstance(w.func, ast.Attribute) and norm(w.func.value).split(".")[0] in (prim, sec):
             who = norm(w.func.value).split(".")[0]
             cond = w.args[0] if w.args else None
-            sels.append((who, cond, st))
+            sels.append((who, cond, enclosing_stmt(w)))
+    if len(sels) != 2 or set(x[0] for x in sels) != {prim, sec}:
+        raise AnalysisError("_get_common_time_period: the two selections <dataset>.time.where(...) were not found")
+    bounds = {}
     for who, cond, st in sels:
-        tname = None
         ok = False
+        lo = hi = None
         if cond is not None:
-            cj = conjuncts(cond)
-            ops = []
+            cj = conjuncts(flow.resolve(cond, at=st, depth=1, stop=(prim, sec, mi, start, end)))
             for c in cj:
-                if isinstance(c, ast.Compare) and len(c.ops) == 1:
-                    ops.append((norm(c.left).split(".")[0], type(c.ops[0]).__name__, norm(c.comparators[0])))
-            ok = len(ops) == 2 and all(o[0] == who for o in ops) and \
-                sorted((o[1], cs.targets[0].id in o[2], ce.targets[0].id in o[2]) for o in ops) == [("GtE", True, False), ("LtE", False, True)]
+                if isinstance(c, ast.Compare) and len(c.ops) == 1 and norm(c.left).split(".")[0] == who:
+                    if isinstance(c.ops[0], ast.GtE):
+                        lo = unwrap(c.comparators[0])
+                    elif isinstance(c.ops[0], ast.LtE):
+                        hi = unwrap(c.comparators[0])
+                elif isinstance(c, ast.Compare) and len(c.ops) == 1 and norm(c.comparators[0]).split(".")[0] == who:
+                    if isinstance(c.ops[0], ast.LtE):
+                        lo = unwrap(c.left)
+                    elif isinstance(c.ops[0], ast.GtE):
+                        hi = unwrap(c.left)
+            ok = len(cj) == 2 and lo is not None and hi is not None
+        bounds[who] = (lo, hi, st)
         ctx.ob("Collocator._get_common_time_period.select[%s]" % who, ok, "selection of %s: %s" % (who, norm(cond) if cond is not None else None),
                "own time >= common_start & own time <= common_end (inclusive at both ends)", node=st, func=f)
+    if any(v[0] is None or v[1] is None for v in bounds.values()):
+        return
+    los = set(str(norm(v[0])) for v in bounds.values())
+    his = set(str(norm(v[1])) for v in bounds.values())
+    if len(los) != 1 or len(his) != 1:
+        raise AnalysisError("_get_common_time_period: the two datasets are cut with different windows: %s / %s" % (sorted(los), sorted(his)))
+    any_st = list(bounds.values())[0][2]
+    cs_e = flow.resolve(list(bounds.values())[0][0], at=any_st, depth=3, stop=(prim, sec, mi, start, end))
+    ce_e = flow.resolve(list(bounds.values())[0][1], at=any_st, depth=3, stop=(prim, sec, mi, start, end))
+
+    def symbols(e):
+        """text of every extreme `<dataset>.time...min()/max()` with its identity wrappers -> symbol"""
+        env = {}
+        for n in ast.walk(e):
+            if isinstance(n, ast.Call) and isinstance(n.func, ast.Attribute) and n.func.attr in ("min", "max") and not n.args:
+                who = norm(n.func.value).split(".")[0]
+                if who not in (prim, sec):
+                    continue
+                sym = ("p" if who == prim else "s") + n.func.attr
+                cur = n
+                while True:
+                    p_ = parent(cur)
+                    if isinstance(p_, ast.Attribute) and isinstance(parent(p_), ast.Call) and parent(p_).func is p_ \
+                            and p_.attr in ("item", "tz_localize", "to_pydatetime", "astype"):
+                        cur = parent(p_)
+                    elif isinstance(p_, ast.Call) and cur in p_.args and (dotted(p_.func) or "").split(".")[-1] in ("Timestamp", "datetime64", "to_datetime"):
+                        cur = p_
+                    else:
+                        break
+                env[str(norm(cur))] = sym
+        return env
+    from ..core import clone as _clone
+    cs_e, ce_e = _clone(cs_e), _clone(ce_e)        # (clone sets the parent links of the resolved trees)
+    symenv = dict(symbols(cs_e), **symbols(ce_e))
+    from ..order import Interp
+    bad = cut = None
+    n = 0
+    rng = range(5) if ctx.tier == "thorough" else range(4)
+    for S, E, M, pmin, pmax, smin, smax in itertools.product(rng, rng, range(3), rng, rng, rng, rng):
+        if not (S <= E and pmin <= pmax and smin <= smax):
+            continue
+        a = {"S": S, "E": E, "M": M, "pmin": pmin, "pmax": pmax, "smin": smin, "smax": smax}
+        env = {k_: a[v_] for k_, v_ in symenv.items()}
+        env.update({start: S, end: E, mi: M})
+        try:
+            c0, c1 = Interp(env).ev(cs_e), Interp(env).ev(ce_e)
+        except AnalysisError as e_:
+            raise AnalysisError("_get_common_time_period: window bound outside the model: %s" % e_)
+        if cut is None and (c0 < S or c1 > E):
+            cut = dict(a, common_start=c0, common_end=c1)
+        for t1, t2 in itertools.product(range(pmin, pmax + 1), range(smin, smax + 1)):
+            n += 1
+            if S <= t1 <= E and S <= t2 <= E and abs(t1 - t2) < M and not (c0 <= t1 <= c1 and c0 <= t2 <= c1) and bad is None:
+                bad = dict(a, t1=t1, t2=t2, common_start=c0, common_end=c1)
+    ctx.models.append({"rule": "C04.window", "cases": n, "domain": "box 0..3 (9 symbols)", "exhaustive": False})
+    ctx.ob("Collocator._get_common_time_period.sound", bad is None, "window [%s, %s], %d cases" % (norm(cs_e)[:110], norm(ce_e)[:110], n),
+           "every pair (t1, t2) inside [start, end] with |t1 - t2| < max_interval lies inside [common_start, common_end]", node=any_st, func=f, witness=bad)
+    ctx.ob("Collocator._get_common_time_period.exact", cut is None, "window [%s, %s], %d cases" % (norm(cs_e)[:110], norm(ce_e)[:110], n),
+           "start <= common_start and common_end <= end: no point outside [start, end] is selected (the interval widens the data range, never the requested period)",
+           node=any_st, func=f, witness=cut)
 
 
 def rule_nan(ctx):
@@ -528,7 +531,7 @@ def rule_offsets(ctx):
         lo_form = linear_form(flow.resolve(defs[c2s_name].value if c2s_name in defs else ast.parse(c2s_name, mode="eval").body, at=rets[0]),
                               {c1s: "B", mi: "M"})
         hi_v = defs[c2e_name].value if c2e_name in defs else None
-        hi_form = linear_form(hi_v, {"%s.index.max()" % c1: "X", mi: "M"}) if hi_v is not None else None
+        hi_form = linear_form(hi_v, {"%s.index.max()" % c1: "X", mi: "M", c1s: "B"}) if hi_v is not None else None
         ctx.ob("Collocator._bin_pairs.bounds", lo_form == {"B": 1, "M": -1} and hi_form == {"X": 1, "M": 1},
                "lower = %s, upper = %s" % (lo_form, hi_form), "lower = bin start - max_interval, upper = last primary time of the bin + max_interval",
                node=c2def, func=bp)
